@@ -965,6 +965,14 @@ def run(ctx):
     ctx.trusted.append("C08_units_agree (same unit sequence / header values) is checked by the differential oracle only, not by a theorem")
     ctx.note("%d accepted streams compared, %d slice cases through both Coq readers; %.0fs streams, %.0fs real slice parsers, %.0fs coq"
              % (accepted, len(cases), t_streams, t_slices, time.time() - t0 - t_streams - t_slices))
+    # ---- header part (tools/harness/C08_headers.py): the description programs of Model/SerDesVC2Headers.v against the
+    # real vc2.py functions under a real Deserialiser (the proofs about them are Proofs/HeadersAgree2.v)
+    try:
+        import C08_headers
+        C08_headers.run(ctx)
+    except Exception:
+        import traceback
+        ctx.obligation("harness:C08_headers", False, "harness", traceback.format_exc())
 
 
 # ----------------------------------------------------------------------------- corpus
